@@ -214,6 +214,30 @@ def run_config(cfg, e):
                         else:
                             obl.append((cdata.a[c, s, ch] == 0,
                                         'merged cluster %d: non-zero outside the dominant template channels' % c))
+                if cfg['wmi'] != 'I' and cfg['templates'] != 'symbolic':
+                    # the same query made directly, afterwards, in the default unwhitened units
+                    try:
+                        bu = m.get_cluster_mean_waveforms(c)
+                        chu = [int(v) for v in snp.asarray(bu.channel_ids).a.tolist()]
+                        mwu = snp.asarray(bu.mean_waveforms)
+                        chdu = [int(v) for v in snp.asarray(m.get_template(dom, unwhiten=True).channel_ids).a.tolist()]
+                        recu = []
+                        for t in lst:
+                            b = m.get_template(t, unwhiten=True)
+                            recu.append(([int(v) for v in snp.asarray(b.channel_ids).a.tolist()], snp.asarray(b.template)))
+                    except Exception as ex:
+                        e.fail('exception in unwhitened query %r' % (ex,))
+                    obl.append((chu == chdu, 'merged cluster %d, unwhitened query: channels %s, dominant template has %s' % (
+                        c, chu, chdu)))
+                    if chu == chdu:
+                        for s in range(nsw):
+                            for j, ch in enumerate(chu):
+                                acc = SymReal(0)
+                                for (chl, tpl), k in zip(recu, cv):
+                                    if ch in chl:
+                                        acc = acc + tpl.a[s, chl.index(ch)] * k
+                                obl.append((mwu.a[s, j] * tot == acc,
+                                            'merged cluster %d, unwhitened query after loading: wrong weighted mean on channel %d' % (c, ch)))
             else:
                 for s in range(nsw):
                     for ch in range(nc):
@@ -276,6 +300,22 @@ def replay(case):
             if not np.allclose(cdata[c], want, atol=1e-5):
                 return 'merged cluster %d (templates %s, counts %s): waveform %s, weighted mean is %s' % (
                     c, ts, cnt, cdata[c].tolist(), want.tolist())
+            if case['wmi'] != 'I':
+                bu = m.get_cluster_mean_waveforms(c)
+                chu = [int(v) for v in bu.channel_ids]
+                chdu = [int(v) for v in m.get_template(dom, unwhiten=True).channel_ids]
+                if chu != chdu:
+                    return 'merged cluster %d, unwhitened query: channels %s, dominant template has %s' % (c, chu, chdu)
+                wantu = np.zeros((nsw, nc))
+                for t, k in zip(ts, cnt):
+                    b = m.get_template(t, unwhiten=True)
+                    full = np.zeros((nsw, nc))
+                    full[:, b.channel_ids] = b.template
+                    wantu[:, chdu] += k * full[:, chdu]
+                wantu /= sum(cnt)
+                if not np.allclose(bu.mean_waveforms, wantu[:, chdu], atol=1e-5):
+                    return 'merged cluster %d, unwhitened query after loading: waveform %s, weighted mean is %s' % (
+                        c, np.asarray(bu.mean_waveforms).tolist(), wantu[:, chdu].tolist())
         elif np.any(cdata[c] != 0):
             return 'empty cluster %d has a waveform' % c
     return None
